@@ -427,12 +427,19 @@ class Family:
         hook_gives = []
         try:
             xs = []
+            main_ms = None
             hook_gives = []      # ("give", frame id, term object) and ("check",) in order
             with open(hpath) as hf:
                 for line in hf:
                     if line.startswith('{"e":"insert"'):
                         try:
-                            xs.append(json.loads(line)["x"])
+                            o = json.loads(line)
+                            # only the instance that executes the script (the first one seen); core minimisation
+                            # inserts the same formulas into helper instances
+                            if main_ms is None:
+                                main_ms = o.get("ms")
+                            if o.get("ms") == main_ms:
+                                xs.append(o["x"])
                         except Exception:
                             pass
                     elif line.startswith('{"e":"give"') and len(hook_gives) < 400:
@@ -455,7 +462,8 @@ class Family:
         if intl is None:
             intl = self.g.num == INT
         run = {"sid": sid, "cfg": cfg, "kind": kind, "io": io, "base": base or sid, "intl": bool(intl),
-               "cmds": cmds, "res": res, "text": text, "det": det, "wellformed": wellformed, "dup": dup, "hook_gives": hook_gives}
+               "cmds": cmds, "res": res, "text": text, "det": det, "wellformed": wellformed, "dup": dup, "hook_gives": hook_gives,
+               "xs": xs if 'xs' in dir() else []}
         self.runs.append(run)
         return run
 
@@ -532,6 +540,13 @@ class Family:
                 sig.funs[cmd["nm"]] = (tuple(cmd["args"]), cmd["ret"])
             if r != "error" and c == "declare-sort":
                 sig.sorts.add(cmd["nm"])
+        # the solver's own identity of every accepted assertion (insertFormula hook), when the two sequences line up
+        acc = [e for e in evs if e.get("e") == "Cmd" and e.get("c") == "assert" and e.get("r") == "ok"]
+        raw_asserts = any(c2["c"] == "raw" and "(assert" in c2.get("text", "") for c2 in cmds)
+        xs_run = run.get("xs") or []
+        if not raw_asserts and len(acc) == len(xs_run):
+            for e, x in zip(acc, xs_run):
+                e["x"] = x
         evs.append({"e": "Exit", "status": res["status"], "sig": res["sig"], "san": bool(res["san"]), "to": bool(res["to"]),
                     "pending": pending_check, "outh": outhash(strip_markers(res["out"])),
                     "nerr": nerr + (1 if ("syntax error" in res["out"] or "Syntax error" in res["out"]) else 0),
